@@ -30,92 +30,11 @@ void aws_fatal_assert(const char *cond_str, const char *file, int line) {
     __CPROVER_assume(0);
 }
 
-/* ---- ASSUMED libc models: arbitrary results, arguments recorded ------------------------------------------------- */
-struct tm nondet_tm(void);
-long nondet_long(void);
-
-static struct tm g_tg_arg;   /* the tm handed to timegm                                   */
-static int g_tg_calls;
-static time_t g_tg_ret;      /* its (arbitrary) result                                     */
-time_t timegm(struct tm *t) {
-    g_tg_arg = *t;
-    g_tg_calls++;
-    *t = nondet_tm();        /* timegm normalises its argument: arbitrary afterwards       */
-    return g_tg_ret;
-}
-static struct tm g_mk_arg;
-static int g_mk_calls;
-static time_t g_mk_ret;
-time_t mktime(struct tm *t) {
-    g_mk_arg = *t;
-    g_mk_calls++;
-    *t = nondet_tm();
-    return g_mk_ret;
-}
-static time_t g_gm_arg;      /* the instant handed to gmtime_r                              */
-static int g_gm_calls;
-static struct tm g_gm_out;   /* the (arbitrary) broken-down time it produces                */
-struct tm *gmtime_r(const time_t *timep, struct tm *result) {
-    g_gm_arg = *timep;
-    g_gm_calls++;
-    *result = g_gm_out;
-    return result;
-}
-static time_t g_lt_arg;
-static int g_lt_calls;
-static struct tm g_lt_out;
-struct tm *localtime_r(const time_t *timep, struct tm *result) {
-    g_lt_arg = *timep;
-    g_lt_calls++;
-    *result = g_lt_out;
-    return result;
-}
-static char *g_sf_s;             /* strftime: destination, space, format, tm                */
-static size_t g_sf_max;
-static const char *g_sf_fmt;
-static const struct tm *g_sf_tm;
-static int g_sf_calls;
-static size_t g_sf_ret;          /* arbitrary result: 0 (does not fit) or the number of bytes, < max */
-size_t strftime(char *s, size_t max, const char *format, const struct tm *tm) {
-    g_sf_s = s; g_sf_max = max; g_sf_fmt = format; g_sf_tm = tm;
-    g_sf_calls++;
-    __CPROVER_assume(g_sf_ret == 0 || g_sf_ret < max);
-    if (max > 0) {
-        /* POSIX: at most max bytes are stored (contents indeterminate when 0 is returned): touch both ends of that window */
-        s[0] = (char)nondet_u8();
-        s[max - 1] = (char)nondet_u8();
-        if (g_sf_ret > 0) s[g_sf_ret] = 0;
-    }
-    return g_sf_ret;
-}
+#include "c19_models.h"
 
 #include "source/byte_buf.c"
 #include "source/date_time.c"
 #include "source/posix/time.c"
-
-#define TM_EQ(a, b)                                                                                                    \
-    ((a).tm_sec == (b).tm_sec && (a).tm_min == (b).tm_min && (a).tm_hour == (b).tm_hour && (a).tm_mday == (b).tm_mday && \
-     (a).tm_mon == (b).tm_mon && (a).tm_year == (b).tm_year && (a).tm_wday == (b).tm_wday && (a).tm_yday == (b).tm_yday && \
-     (a).tm_isdst == (b).tm_isdst)
-#define TM_IS(a, Y, MO, D, H, MI, S)                                                                                   \
-    ((a).tm_year == (Y) && (a).tm_mon == (MO) && (a).tm_mday == (D) && (a).tm_hour == (H) && (a).tm_min == (MI) &&     \
-     (a).tm_sec == (S) && (a).tm_wday == 0 && (a).tm_yday == 0 && (a).tm_isdst == 0)
-
-/* the instant range of the property: 1970-01-01T00:00:00Z .. 9999-12-31T23:59:59Z */
-#define T_MAX_9999 253402300799LL
-
-static void reset_models(void) {
-    GHOST_RESET_COMMON();
-    g_tg_calls = g_mk_calls = g_gm_calls = g_lt_calls = g_sf_calls = 0;
-    g_tg_ret = (time_t)nondet_long();
-    g_mk_ret = (time_t)nondet_long();
-    /* what libc may return: any instant whose distance from 0 leaves room for a +-(99h 99m) offset (no signed overflow) */
-    __CPROVER_assume(g_tg_ret > -((time_t)1 << 62) && g_tg_ret < ((time_t)1 << 62));
-    __CPROVER_assume(g_mk_ret > -((time_t)1 << 62) && g_mk_ret < ((time_t)1 << 62));
-    g_gm_out = nondet_tm();
-    g_lt_out = nondet_tm();
-    g_sf_ret = nondet_size_t();
-}
 
 /* ------------------------------------------------------------------------------------------------------------------
  * text generator: an input object of EXACTLY g_len bytes, filled left to right */
@@ -294,9 +213,10 @@ static void gen_rfc822(bool weekday, int zone) {
     e_utc = zone != 0;
     for (int i = 0; i < 6; ++i) e_tz[i] = 0;
     if (weekday) {
-        size_t nw = nondet_size_t();
-        __CPROVER_assume(nw <= AWS_DATE_TIME_STR_MAX_LEN);
-        for (size_t i = 0; i < nw; ++i) { uint8_t c = nondet_u8(); __CPROVER_assume(is_alpha(c)); put(c); }
+#ifndef NW
+#define NW 3
+#endif
+        for (size_t i = 0; i < NW; ++i) { uint8_t c = nondet_u8(); __CPROVER_assume(is_alpha(c)); put(c); }
         put(',');
         put_space();
     }
@@ -308,7 +228,10 @@ static void gen_rfc822(bool weekday, int zone) {
     put(any_case(k_months[3 * e_mon + 1]));
     put(any_case(k_months[3 * e_mon + 2]));
     size_t nm = nondet_size_t(); /* "September": further letters are ignored */
-    __CPROVER_assume(nm <= 6);
+#ifndef NM
+#define NM 6
+#endif
+    __CPROVER_assume(nm <= NM);
     for (size_t i = 0; i < nm; ++i) { uint8_t c = nondet_u8(); __CPROVER_assume(is_alpha(c)); put(c); }
     put_space();
     if (nondet_bool()) e_year = put_4digits() - 1900; else e_year = put_2digits() + 100;
